@@ -20,8 +20,8 @@ var StandardFunctions = map[string]KeyBuilderFunction{
 	"sumi":  arithmaticHelperi(func(a, b int) int { return a + b }),
 	"subi":  arithmaticHelperi(func(a, b int) int { return a - b }),
 	"multi": arithmaticHelperi(func(a, b int) int { return a * b }),
-	"divi":  arithmaticHelperi(func(a, b int) int { return a / b }),
-	"modi":  arithmaticHelperi(func(a, b int) int { return a % b }),
+	"divi":  arithmaticHelperiNonZero(func(a, b int) int { return a / b }),
+	"modi":  arithmaticHelperiNonZero(func(a, b int) int { return a % b }),
 	"maxi": arithmaticHelperi(func(a, b int) int {
 		if a > b {
 			return a
